@@ -138,18 +138,22 @@ func C14_atomic() {
 	root := c14Root()
 	before := c14Observe(root)
 	// the failing document
-	fail := c14FailParts[sym.Choice("failure", len(c14FailParts))]
+	failK := sym.Choice("failure", len(c14FailParts))
+	fail := c14FailParts[failK]
 	failFirst := sym.Choice("failing part first", 2) == 1
 	doc := ""
-	// quick: no valid part, one of them, or all; thorough: subsets (S booleans)
+	// quick: no valid part, one of them, or all; thorough: subsets (S
+	// booleans) for the first nine failure classes, the quick family for the
+	// partial-extension ones (all fourteen with subsets did not fit 45 minutes)
+	subsets := sym.Thorough() && failK < 9
 	which := -2
 	tail := false
-	if !sym.Thorough() {
+	if !subsets {
 		which = sym.Choice("valid parts", len(c14ValidParts)+2) - 2 // -2: none, -1: all, k: only part k
 	}
 	for k, p := range c14ValidParts {
 		include := which == -1 || which == k
-		if sym.Thorough() {
+		if subsets {
 			// every subset of the first seven parts; the last four go together
 			if k < 7 {
 				include = sym.Bool("part " + string(rune('0'+k)))
